@@ -30,13 +30,13 @@ PLAN = {
     'C09': [('A', None)],
     'C10': [('A', None)],
     'C11': [('A', None)],
-    'C12': [('A', None)],
+    'C12': [('A', None), ('D', None)],
     'C13': [('A', None)],
     'C14': [('A', None)],
     'C15': [('U', None)],
-    'C16': [('A', None)],
+    'C16': [('A', None), ('K', None), ('A', None), ('K', None), ('A', None), ('K', 'helpers')],
     'C17': [('B', 'fault')],
-    'C18': [('A', None)],
+    'C18': [('A', None), ('R', 'bulkread'), ('A', None), ('R', 'lazy'), ('A', None), ('R', 'chunked')],
 }
 
 
